@@ -56,6 +56,7 @@ type cycleRec struct {
 	Snapshot       table
 	StreamRefused  bool
 	NoFullSync     bool
+	AttachFirst    bool
 	HeldInApply    bool
 	Stalled        bool
 
@@ -65,13 +66,15 @@ type cycleRec struct {
 	nConn        int
 	dropsBefore  int
 	drops        int
+	msgsBefore   int // standby's MessagesReceived when its stream request reached the proxy
 	judged       bool
 }
 
 type scenario struct {
-	idx   int
-	rng   *rand.Rand
-	clock int64
+	idx     int
+	rng     *rand.Rand
+	sentRng *rand.Rand // sentinel versions: their number depends on timing, so they must not consume rng
+	clock   int64
 
 	act, sb           *ha.HASyncer
 	actStore, sbStore *recStore
@@ -117,7 +120,7 @@ func (sc *scenario) describe() map[string]any {
 	var cs []map[string]any
 	for _, c := range sc.cycles {
 		cs = append(cs, map[string]any{"cycle": c.N, "failed_gets": c.FailedGets, "changes_before_snapshot": c.nPre, "changes_between_snapshot_and_attach": c.nGap,
-			"pushes_while_connected": c.nConn, "cut": c.CutMode, "cut_mid_burst": c.MidBurst, "stream_attach_refused": c.StreamRefused, "reattached_without_full_sync": c.NoFullSync, "held_in_full_sync_apply": c.HeldInApply,
+			"pushes_while_connected": c.nConn, "cut": c.CutMode, "cut_mid_burst": c.MidBurst, "stream_attach_refused": c.StreamRefused, "reattached_without_full_sync": c.NoFullSync, "stream_attached_before_snapshot": c.AttachFirst, "held_in_full_sync_apply": c.HeldInApply,
 			"link_stalled": c.Stalled, "snapshot": c.Snapshot.String(), "drop_warnings_logged_by_active": c.drops,
 			"stamps": map[string]int64{"get": c.GetArrived, "snapshot": c.SnapTaken, "stream_request": c.StreamArrived, "connected_observed": c.ConnObserved, "cut_issued": c.CutIssued, "end": c.End}})
 	}
@@ -200,7 +203,7 @@ func (sc *scenario) start() error {
 	logger := zap.New(core)
 	sc.actStore = newRecStore(&sc.clock)
 	sc.sbStore = newRecStore(&sc.clock)
-	sc.hb = []time.Duration{2 * time.Millisecond, 5 * time.Millisecond, 20 * time.Millisecond, 100 * time.Millisecond}[sc.rng.IntN(4)]
+	sc.hb = []time.Duration{5 * time.Millisecond, 10 * time.Millisecond, 20 * time.Millisecond, 100 * time.Millisecond}[sc.rng.IntN(4)]
 
 	// sessions the active already has when the standby first connects
 	for i, n := 0, sc.rng.IntN(4); i < n; i++ {
@@ -384,12 +387,12 @@ func (sc *scenario) sentinel() *pushRec {
 	typ := ha.SyncTypeAdd
 	var s ha.SessionState
 	if present {
-		s = updateSession(cur, op, sc.rng)
+		s = updateSession(cur, op, sc.sentRng)
 		if op%2 == 0 {
 			typ = ha.SyncTypeUpdate
 		}
 	} else {
-		s = newSession(sid, op, sc.rng)
+		s = newSession(sid, op, sc.sentRng)
 	}
 	sc.actStore.inner.PutSession(&s)
 	sc.model[sid] = s
@@ -407,6 +410,7 @@ func (sc *scenario) sentinel() *pushRec {
 // to push the next sentinel; a sentinel that never arrives while a later one does is an ordinary
 // lost push and is judged as such.
 func (sc *scenario) settle(c *cycleRec) (bool, error) {
+	start := time.Now()
 	for try := 0; try < 20; try++ {
 		rec := sc.sentinel()
 		c.nConn++
@@ -415,37 +419,52 @@ func (sc *scenario) settle(c *cycleRec) (bool, error) {
 		if try > 6 || d > 3*time.Second {
 			d = 3 * time.Second
 		}
-		if _, ok := sc.sbStore.waitPut(rec.Op, d); ok {
-			sc.cnt("B_settle_points", 1)
-			return true, nil
-		}
-		if sc.pollEnded(c) {
-			return false, nil // the stream went away: what was in flight is not owed
+		for {
+			before := sc.progress()
+			if _, ok := sc.sbStore.waitPut(rec.Op, d); ok {
+				sc.cnt("B_settle_points", 1)
+				return true, nil
+			}
+			if sc.pollEnded(c) {
+				return false, nil // the stream went away: what was in flight is not owed
+			}
+			if sc.progress() == before {
+				break // the standby handled nothing during a whole wait: this sentinel is not on its way
+			}
+			// the standby is still working through a backlog: the sentinel is behind it
+			sc.cnt("B_settle_waits_behind_backlog", 1)
+			if time.Since(start) > 240*time.Second {
+				return false, sc.fail("standby still busy with the backlog of one burst after 240 s")
+			}
 		}
 		sc.cnt("B_sentinel_repushed", 1)
 	}
-	// no sentinel applied: is there independent evidence that the standby received them?
-	wire := sc.px.wireCopy()
-	var firstSent int64
-	later := 0
-	for _, w := range wire {
+	// 20 sentinels, each given up only while the standby was idle. Did it handle them? The standby's
+	// own message counter (Stats) says how many events of this stream it has taken in; the wire log
+	// says at which position the first sentinel was relayed.
+	pos, firstSent := 0, 0
+	for _, w := range sc.px.wireCopy() {
 		if w.Stamp <= c.StreamReleased {
 			continue
 		}
+		pos++
 		if p := sc.byOp[w.Op]; firstSent == 0 && w.Type != "heartbeat" && p != nil && p.Sentinel {
-			firstSent = w.Stamp
-		} else if firstSent != 0 {
-			later++
+			firstSent = pos
 		}
 	}
-	if firstSent != 0 && later >= 3 && sc.sb.IsConnected() {
+	handled := int(sc.sb.Stats().MessagesReceived) - c.msgsBefore
+	if firstSent != 0 && handled >= firstSent+2 && sc.sb.IsConnected() {
 		violation(sc.size(), compStream, ruleOrder, "received-not-applied:sentinel",
-			fmt.Sprintf("layer B scenario %d: 20 consecutive changes pushed while the stream was connected were relayed to the standby (followed by %d further events on the same stream) and none was applied to its store", sc.idx, later),
+			fmt.Sprintf("layer B scenario %d: 20 consecutive changes pushed while the stream was connected were not applied to the standby's store; the first was relayed as event %d of the stream and the standby reports %d events handled since it attached", sc.idx, firstSent, handled),
 			sc.describe())
 		return false, nil
 	}
-	return false, sc.fail("no sentinel was applied and the wire log does not show that the standby received one")
+	return false, sc.fail(fmt.Sprintf("no sentinel was applied; first sentinel relayed as event %d, standby reports %d events handled: no evidence that it received one", firstSent, handled))
 }
+
+// progress tells how far the standby has got with changes (number of store operations it has
+// performed; heartbeats do not count, they never stop); used only to pace the sentinels.
+func (sc *scenario) progress() int { return sc.sbStore.logLen() }
 
 // burst pushes n changes while connected, split over the scenario's pushers. If cutAt >= 0 the
 // stream is cut after that many changes of pusher 0 (the rest of the burst is pushed to a dead link).
@@ -514,7 +533,6 @@ func (sc *scenario) run() error {
 				// the standby re-attaches without asking for a snapshot: no full sync to judge in this
 				// cycle; what it missed while away shows up in clause (iii)
 				c.NoFullSync = true
-				sc.cnt("B_reattach_without_full_sync", 1)
 				c.GetReleased, c.SnapTaken = ev.Stamp, ev.Stamp
 				sc.putBack = append([]*pxEvent{ev}, sc.putBack...)
 				break
@@ -620,6 +638,7 @@ func (sc *scenario) run() error {
 			return err
 		}
 		c.StreamArrived = ev3.Stamp
+		c.msgsBefore = int(sc.sb.Stats().MessagesReceived)
 		// clause (i): performFullSync has returned; the stream is not attached, so nothing else
 		// writes to the standby's table now.
 		if !c.NoFullSync {
@@ -641,12 +660,21 @@ func (sc *scenario) run() error {
 			continue
 		}
 		sc.phase.Store("attach")
+		if c.NoFullSync {
+			sc.px.stall(true) // relay nothing until it is clear which order of requests this standby uses
+		}
 		c.StreamReleased = sc.stamp()
 		ev3.release <- pxAction{}
 		if _, err := sc.expect("attached"); err != nil {
 			return err
 		}
-		if err := sc.waitConnected(); err != nil {
+		if c.NoFullSync {
+			if err := sc.attachFirst(c, rng); err != nil {
+				return err
+			}
+			c.StreamReleased = sc.stamp() // nothing of the stream has reached the standby before this point
+			sc.px.stall(false)
+		} else if err := sc.waitConnected(); err != nil {
 			return err
 		}
 		c.dropsBefore = sc.drops()
@@ -713,6 +741,78 @@ func (sc *scenario) run() error {
 		prev = c
 	}
 	return nil
+}
+
+// attachFirst handles a standby that asked for the stream before (or without) asking for the
+// snapshot. The relay is stalled, so nothing of the stream reaches the standby meanwhile. If a GET
+// follows, this is the "subscribe, then snapshot" order: the snapshot is served and clause (i) is
+// judged once IsConnected() reports the attach complete. If the standby reports connected without
+// a GET, it re-attached without a full sync; clause (iii) will say what that costs.
+func (sc *scenario) attachFirst(c *cycleRec, rng *rand.Rand) error {
+	deadline := time.Now().Add(30 * time.Second)
+	for {
+		if sc.sb.IsConnected() {
+			sc.cnt("B_reattach_without_full_sync", 1)
+			return nil
+		}
+		var e *pxEvent
+		select {
+		case e = <-sc.px.ev:
+		default:
+		}
+		if e == nil || e.release == nil {
+			if e != nil && e.Kind == "ended" {
+				return sc.fail("stream ended while attaching")
+			}
+			if time.Now().After(deadline) {
+				return sc.fail("stream attached, but the standby neither asked for a snapshot nor reported connected within 30 s")
+			}
+			time.Sleep(200 * time.Microsecond)
+			continue
+		}
+		if e.Kind != "get" {
+			e.release <- pxAction{Fail: "abort"}
+			return sc.fail("unexpected request while attaching: " + e.Kind)
+		}
+		c.NoFullSync, c.AttachFirst = false, true
+		sc.cnt("B_attach_before_snapshot_cycles", 1)
+		sc.phase.Store("pre")
+		for i, n := 0, rng.IntN(3); i < n; i++ { // after the stream was registered, before the snapshot: in both
+			sc.doOp(rng.IntN(sc.pushers), rng, 35)
+			c.nPre++
+		}
+		c.GetReleased = sc.stamp()
+		e.release <- pxAction{}
+		ev2, err := sc.expect("snapshot")
+		if err != nil {
+			return err
+		}
+		c.SnapTaken = ev2.Stamp
+		msg, err := ha.DecodeSyncMessage(ev2.Body)
+		if err != nil {
+			return sc.fail("snapshot body does not decode: " + err.Error())
+		}
+		c.Snapshot = tableOf(msg.Sessions)
+		sc.mu.Lock()
+		want := sc.model.clone()
+		sc.mu.Unlock()
+		if ds := diffTables(c.Snapshot, want); len(ds) > 0 {
+			violation(sc.size(), compGet, ruleSnap, strings.Join(diffKinds(ds), "+"), fmt.Sprintf("layer B scenario %d cycle %d: GET /ha/sessions served %s while the (quiesced) active's table is %s", sc.idx, c.N, c.Snapshot, want),
+				map[string]any{"scenario": sc.describe(), "differences": ds})
+		}
+		sc.cnt("B_snapshots_compared_with_active_table", 1)
+		sc.phase.Store("gap")
+		for i, n := 0, rng.IntN(3); i < n; i++ { // after the snapshot: only on the (stalled) stream
+			sc.doOp(rng.IntN(sc.pushers), rng, 35)
+			c.nGap++
+		}
+		ev2.release <- pxAction{}
+		if err := sc.waitConnected(); err != nil {
+			return err
+		}
+		sc.judgeFullSync(c)
+		return nil
+	}
 }
 
 func pickBurst(rng *rand.Rand) int {
@@ -1073,8 +1173,8 @@ func TestLayerB(t *testing.T) {
 	t.Parallel()
 	id := wdEnter("layer B")
 	defer wdLeave(id)
-	n := run.Pick(80, 1500)
-	const nChildren = 4
+	n := run.Pick(72, 1000)
+	nChildren := run.Pick(4, 6)
 	tmp, err := os.MkdirTemp("", "c13b")
 	if err != nil {
 		t.Fatal(err)
@@ -1197,7 +1297,7 @@ func countHeartbeats(w []wireMsg) int {
 
 func newScenario(i int) *scenario {
 	rng := run.SubRand("B", i)
-	sc := &scenario{idx: i, rng: rng, model: table{}, byOp: map[uint64]*pushRec{}, lastOn: map[string]*pushRec{}, counts: map[string]int{}}
+	sc := &scenario{idx: i, rng: rng, sentRng: run.SubRand("B-sentinel", i), model: table{}, byOp: map[uint64]*pushRec{}, lastOn: map[string]*pushRec{}, counts: map[string]int{}}
 	sc.phase.Store("pre")
 	sc.pushers = 1
 	if rng.IntN(4) == 0 {
